@@ -472,6 +472,12 @@ func c10Run(c *Case) (out string, fails []Fail) {
 		logger.SetOutput(io.Discard)          // constructor panics are logged at panic level before panicking
 		c10LoggerReady = true
 	}
+	switch c.Kind {
+	case 1:
+		return c10RunDecoder(c)
+	case 2:
+		return c10RunUnescape(c)
+	}
 	cc, err := c10Parse(c)
 	if err != nil || cc.M < 1 || cc.nrec < len(cc.schema) || cc.nout < 1 {
 		return "badcase", nil
